@@ -1,6 +1,7 @@
 import LexgenModel.Proofs.CtxFn
 import LexgenModel.Proofs.MaxMunch
 import LexgenModel.Proofs.CtxLang
+import LexgenModel.Proofs.ContextNumbering
 /-!
 # C04 — Right context gates a match without consuming input
 -/
@@ -56,5 +57,17 @@ theorem C04_context_numbering (items : LexerDef) (c : Compiled) (h : compileLexe
       ∀ j (hj : j < cres.length), regexPiecesOK cres[j] → tailEoi cres[j] →
         ∀ rest, ctxRun (c.ctxs.getD (k + j) []) 0 rest = true ↔ CtxLang cres[j] rest :=
   compileLexer_ctxs items c h name rs b k hmem
+
+/-- **The numbering of the right-context automata is irrelevant; equal contexts may share an automaton.** If the accept entries of a compiled
+machine are renumbered by ANY `g` (not necessarily injective) and the automaton found under the new number decides, on every remaining input, what
+the automaton under the old number decided, then the generated lexers behave identically — same items and same lexer state after any number of
+calls from any state. (The generated code uses a context number only to call the context function.) This licenses comparing the
+implementation's context numbers with the model's up to renaming. -/
+theorem C04_context_numbering_irrelevant (g : Nat → Nat) (c c' : Compiled)
+    (hdfa : c'.dfa = c.dfa.map (DState.mapCTrans g)) (hent : c'.entries = c.entries)
+    (hsame : ∀ i iter, ctxRun (c'.ctxs.getD (g i) []) 0 iter = ctxRun (c.ctxs.getD i []) 0 iter)
+    (acts : Nat → Action σ τ ε) (width : Nat → Nat) (input : Option (List Nat)) (n : Nat) (st : LState σ) :
+    runN (c'.config acts width input) n st = runN (c.config acts width input) n st :=
+  compiled_ctx_numbering_irrelevant g c c' hdfa hent hsame acts width input n st
 
 end Lexgen
